@@ -17,6 +17,24 @@
 (* Binding A: every state of the exhaustive run and the last state of every       *)
 (* -simulate behaviour is one case replayed through the real                      *)
 (* isaac.BaseProposalSelector (harness c07).                                      *)
+(*                                                                                *)
+(* History part (Hist = TRUE). The statement makes the proposer a function of     *)
+(* (point, previous block, suffrage) ALONE. A consensus node keeps ONE selector   *)
+(* object for its whole life and asks it height after height, round after round,  *)
+(* while the blocks it saves change the suffrage; so "every node selects the      *)
+(* same" also quantifies over what the selector objects were asked BEFORE: a node *)
+(* that has been running for long and a node that has just started must agree.    *)
+(* The chain: sufs[g+1] = the suffrage in the state of block g, bsums[g+1] = byte  *)
+(* sum of the hash of block g; the point of height hh is decided by the suffrage  *)
+(* of block hh-1 (GetNodesFunc is a function of the block HEIGHT, it answers      *)
+(* "not found" above the top of the chain) and its previous block is block hh-1.  *)
+(* Commit appends a block whose suffrage differs from the last one by a join, a   *)
+(* leave, a swap or nothing; SelectBy(s, ...) puts one more selection to the      *)
+(* long-lived selector object s. `script` is the sequence of all events; every    *)
+(* maximal script (exhaustive) / the last state of every behaviour (-simulate) is *)
+(* replayed on real long-lived selector objects, and every selection of a script  *)
+(* is put at the same time to a selector object made for that single call (a node *)
+(* that has just started) with another listing of the same suffrage.              *)
 EXTENDS Integers, Sequences, FiniteSets, TLC, Json
 
 CONSTANTS N,            \* nodes are 1..N
@@ -25,7 +43,17 @@ CONSTANTS N,            \* nodes are 1..N
           MaxSum,       \* simulate mode: byte sum drawn from 0..MaxSum
           MaxFail,      \* at most this many proposers fail in a script
           FailSum,      \* the byte sum used in the failure scripts of the exhaustive mode
-          Sim           \* FALSE: every case is an initial state; TRUE: a behaviour builds one random case
+          Sim,          \* FALSE: every case is an initial state; TRUE: a behaviour builds one random case
+          Hist,         \* TRUE: the history part (scripts over a chain whose suffrage changes); Sim then says exhaustive or random
+          NSel,         \* history: long-lived selector objects 1..NSel
+          MaxBlocks,    \* history: blocks 0..MaxBlocks, so points of height 1..MaxBlocks+1
+          MaxSel,       \* history: at most this many selections in a script
+          HRs, HSums,   \* history: rounds selected at, byte sums of the block hashes
+          S0Min,        \* history: the genesis suffrage has at least this many nodes
+          Kinds,        \* history: how a block may change the suffrage, subset of {"stay", "join", "leave", "swap"}
+          Keys,         \* history: listing orders (node i is listed at position order (i * key) % Mod)
+          Late          \* history: FALSE = a selector is asked for the current height and only for later and later points;
+                        \*          TRUE = for any height that has a previous block, in any order
 
 Node == 1..N
 Rank(i) == (i * Mul) % Mod
@@ -36,8 +64,13 @@ VARIABLES listing,   \* the suffrage nodes in the order GetNodesFunc returns the
           h, r, hs,  \* point and byte sum of the previous block hash
           local,     \* the node that runs the selection (0: not in the suffrage)
           nfail,     \* the first nfail proposers asked (other than local) fail
-          phase, step
-vars == <<listing, target, h, r, hs, local, nfail, phase, step>>
+          phase, step,
+          sufs,      \* history: sufs[g+1] = suffrage (set of nodes) in the state of block g
+          bsums,     \* history: bsums[g+1] = byte sum of the hash of block g
+          script     \* history: all events so far (blocks and selections) - what the harness replays
+cvars == <<listing, target, h, r, hs, local, nfail>>
+hvars == <<sufs, bsums, script>>
+vars == <<listing, target, h, r, hs, local, nfail, phase, step, sufs, bsums, script>>
 
 Range(s) == {s[i] : i \in 1..Len(s)}
 
@@ -89,6 +122,9 @@ Out == LET ch == Chain(Range(listing), h, r, hs, local, nfail) IN
                local |-> local, nfail |-> nfail,
                first |-> ch[1], chain |-> ch, winner |-> Winner(ch, local, nfail)])
 
+HOff == sufs = <<>> /\ bsums = <<>> /\ script = <<>>                             \* the history part is off
+COff == listing = <<>> /\ h = 0 /\ r = 0 /\ hs = 0 /\ local = 0 /\ nfail = 0     \* the single-case part is off
+
 InitAll == /\ listing \in ListingsOf(Node)
            /\ target = Len(listing)
            /\ h \in Hs /\ r \in Rs /\ (h = 0 => r = 0)
@@ -98,17 +134,20 @@ InitAll == /\ listing \in ListingsOf(Node)
            /\ (nfail > 0 => r = 0 /\ hs = FailSum)      \* failure scripts: every listing, local and height, one round and sum
            /\ phase = "ask"
            /\ step = Out
+           /\ HOff
 
 InitSim == /\ listing = <<>>
            /\ target \in 1..N
            /\ h = 0 /\ r = 0 /\ hs = 0 /\ local = 0 /\ nfail = 0
            /\ phase = "build"
            /\ step = ""
+           /\ HOff
 
 Grow == /\ phase = "build"
           /\ Len(listing) < target
           /\ listing' = Append(listing, RandomElement(Node \ Range(listing)))
           /\ UNCHANGED <<target, h, r, hs, local, nfail, phase, step>>
+          /\ UNCHANGED hvars
 
 Ask == /\ phase = "build"
        /\ Len(listing) = target
@@ -119,15 +158,126 @@ Ask == /\ phase = "build"
        /\ nfail' = RandomElement(0..(IF target < MaxFail THEN target ELSE MaxFail))
        /\ phase' = "params"
        /\ UNCHANGED <<listing, target, step>>
+       /\ UNCHANGED hvars
 
 (* the expected observables are computed in a step of their own, on the unprimed state *)
 Emit == /\ phase = "params"
         /\ phase' = "ask"
         /\ step' = Out
         /\ UNCHANGED <<listing, target, h, r, hs, local, nfail>>
+        /\ UNCHANGED hvars
 
-Init == IF Sim THEN InitSim ELSE InitAll
-Next == Sim /\ (Grow \/ Ask \/ Emit)
+---------------------------------------------------------------------------------
+(* history part: long-lived selector objects over a chain whose suffrage changes *)
+Sels == 1..NSel
+Top == Len(sufs) - 1                    \* height of the last block
+SufAt(hh) == sufs[hh]                   \* the suffrage that decides the point of height hh >= 1: state of block hh-1
+SumAt(hh) == bsums[hh]                  \* byte sum of the previous block of a point of height hh
+IsSel(e) == e.k = 1
+IsBlock(e) == e.k = 0
+
+(* the members of S listed in the order of (i * key) % Mod *)
+Listed(S, key) == LET slot == [p \in 1..Mod |-> IF \E i \in S : (i * key) % Mod = p - 1
+                                               THEN CHOOSE i \in S : (i * key) % Mod = p - 1 ELSE 0]
+                  IN SelectSeq(slot, LAMBDA n : n # 0)
+
+(* selector object s belongs to node LocOf(s) (0: a node that is never in a suffrage) *)
+LocOf(s) == s % (N + 1)
+
+(* what selector object s has been asked so far: its history *)
+HistOf(s) == SelectSeq(script, LAMBDA e : IsSel(e) /\ e.sel = s)
+LastPoint(s) == LET hi == HistOf(s) IN IF Len(hi) = 0 THEN <<0, 0>> ELSE <<hi[Len(hi)].h, hi[Len(hi)].r>>
+Beyond(hh, rr, pt) == hh > pt[1] \/ (hh = pt[1] /\ rr > pt[2])
+NSelected == Cardinality({i \in DOMAIN script : IsSel(script[i])})
+
+BlockEvent(g, S, b) == [k |-> 0, g |-> g, suf |-> S, hs |-> b]
+(* a selection and what the statement demands of it: a function of the point, the previous block *)
+(* and the suffrage of that height - nothing of HistOf(s) enters                                  *)
+SelEvent(s, hh, rr, key, nf) ==
+  LET S  == SufAt(hh)
+      ch == Chain(S, hh, rr, SumAt(hh), LocOf(s), nf)
+  IN [k |-> 1, sel |-> s, loc |-> LocOf(s), h |-> hh, r |-> rr, hs |-> SumAt(hh), key |-> key,
+      listing |-> Listed(S, key), nfail |-> nf, chain |-> ch, winner |-> Winner(ch, LocOf(s), nf)]
+
+Changes(S) ==
+     (IF "stay" \in Kinds THEN {S} ELSE {})
+  \cup (IF "join" \in Kinds THEN {S \cup {n} : n \in Node \ S} ELSE {})
+  \cup (IF "leave" \in Kinds /\ Cardinality(S) > 1 THEN {S \ {n} : n \in S} ELSE {})
+  \cup (IF "swap" \in Kinds THEN {(S \ {n}) \cup {m} : n \in S, m \in Node \ S} ELSE {})
+
+InitHist == /\ COff /\ target = 0
+            /\ phase = "hist"
+            /\ \E S \in SUBSET Node, b \in HSums :
+                 /\ Cardinality(S) >= S0Min
+                 /\ sufs = <<S>> /\ bsums = <<b>>
+                 /\ script = <<BlockEvent(0, S, b)>>
+            /\ step = ToString(script)
+
+(* the block of height Top+1 is saved; its state holds the suffrage S *)
+Commit(S, b) == /\ phase = "hist"
+                /\ Top < MaxBlocks
+                /\ sufs' = Append(sufs, S)
+                /\ bsums' = Append(bsums, b)
+                /\ script' = Append(script, BlockEvent(Top + 1, S, b))
+                /\ step' = ToString(script')
+                /\ UNCHANGED <<cvars, phase>>
+
+(* the long-lived selector object s is asked for the point (hh, rr) *)
+SelectBy(s, hh, rr, key, nf) ==
+                /\ phase = "hist"
+                /\ NSelected < MaxSel
+                /\ hh \in 1..(Top + 1)
+                /\ Late \/ (hh = Top + 1 /\ Beyond(hh, rr, LastPoint(s)))
+                /\ script' = Append(script, SelEvent(s, hh, rr, key, nf))
+                /\ step' = ToString(script')
+                /\ UNCHANGED <<cvars, phase, sufs, bsums>>
+
+SortedKeys == LET slot == [p \in 1..Mod |-> IF p \in Keys THEN p ELSE 0] IN SelectSeq(slot, LAMBDA n : n # 0)
+(* exhaustive: the listing order of a call is fixed by the position in the script (all orders of one *)
+(* call are the business of the single-case part), no failing proposers                            *)
+KeyAt(n) == LET ks == SortedKeys IN ks[(n % Len(ks)) + 1]
+NextHist == \/ \E S \in Changes(sufs[Len(sufs)]), b \in HSums : Commit(S, b)
+            \/ \E s \in Sels, hh \in 1..(Top + 1), rr \in HRs : SelectBy(s, hh, rr, KeyAt(Len(script)), 0)
+
+(* random scripts, up to N nodes: the genesis suffrage has about `target` members *)
+InitHistSim == /\ COff /\ target \in 1..N
+               /\ phase = "hbuild"
+               /\ HOff
+               /\ step = ""
+RandomSum == RandomElement(0..(MaxSum \div 100)) * 100 + RandomElement(0..99)
+(* a random value is drawn once by binding it over a singleton set *)
+HGenesis == /\ phase = "hbuild"
+            /\ \E S0 \in {{i \in Node : RandomElement(1..N) <= target}}, n0 \in {RandomElement(Node)}, b \in {RandomSum} :
+                 LET S == IF S0 = {} THEN {n0} ELSE S0
+                 IN /\ sufs' = <<S>> /\ bsums' = <<b>>
+                    /\ script' = <<BlockEvent(0, S, b)>>
+            /\ phase' = "hist"
+            /\ step' = ToString(script')
+            /\ UNCHANGED cvars
+RandomChange(S) ==
+  LET out == Node \ S
+  IN CHOOSE T \in {IF out = {} /\ Cardinality(S) = 1 THEN S ELSE
+       LET kind == RandomElement(Kinds)
+           m    == IF out = {} THEN 0 ELSE RandomElement(out)
+           n    == RandomElement(S)
+       IN IF kind = "join" /\ out # {} THEN S \cup {m}
+          ELSE IF kind = "leave" /\ Cardinality(S) > 1 THEN S \ {n}
+          ELSE IF kind = "swap" /\ out # {} THEN (S \ {n}) \cup {m}
+          ELSE S} : TRUE
+HRandom == /\ phase = "hist"
+           /\ \E coin \in {RandomElement(1..5)} :
+                IF Top < MaxBlocks /\ coin <= 2
+                THEN \E S \in {RandomChange(sufs[Len(sufs)])}, b \in {RandomSum} : Commit(S, b)
+                ELSE \E s \in {RandomElement(Sels)}, rr \in {RandomElement(HRs)}, key \in {RandomElement(Keys)},
+                        hh \in {IF Late /\ RandomElement(1..4) = 1 THEN RandomElement(1..(Top + 1)) ELSE Top + 1},
+                        nf \in {IF RandomElement(1..12) = 1 THEN 1 ELSE 0} :
+                       SelectBy(s, hh, rr, key, nf)
+
+Init == IF Hist THEN (IF Sim THEN InitHistSim ELSE InitHist)
+        ELSE (IF Sim THEN InitSim ELSE InitAll)
+Next == \/ ~Hist /\ Sim /\ (Grow \/ Ask \/ Emit)
+        \/ Hist /\ ~Sim /\ NextHist
+        \/ Hist /\ Sim /\ (HGenesis \/ HRandom)
 Spec == Init /\ [][Next]_vars
 
 ---------------------------------------------------------------------------------
@@ -144,4 +294,39 @@ LocalIndependent == Asked => \A loc \in Range(listing) \cup {0} :
                        Chain(Range(listing), h, r, hs, loc, 0) = <<TheChain[1]>>
 (* a failed proposer is not selected again *)
 NoRepeat == Asked => \A i, j \in 1..Len(TheChain) : i # j => TheChain[i] # TheChain[j]
+
+---------------------------------------------------------------------------------
+(* history part *)
+SelIdx == {i \in DOMAIN script : IsSel(script[i])}
+(* the chain the script tells is the chain of the state *)
+ChainWellFormed ==
+  /\ Len(sufs) = Len(bsums)
+  /\ \A i \in DOMAIN script : IsBlock(script[i]) =>
+        /\ script[i].g + 1 \in DOMAIN sufs
+        /\ sufs[script[i].g + 1] = script[i].suf /\ bsums[script[i].g + 1] = script[i].hs
+  /\ \A i \in SelIdx : /\ script[i].h \in 1..Len(sufs)
+                       /\ Range(script[i].listing) = SufAt(script[i].h)     \* every member listed, nobody else
+                       /\ Len(script[i].listing) = Cardinality(SufAt(script[i].h))
+                       /\ script[i].hs = SumAt(script[i].h)
+(* statement: every selected proposer is a member of the suffrage of that height - not of the one *)
+(* before the last block changed it                                                                *)
+HMember == \A i \in SelIdx : \A j \in DOMAIN script[i].chain : script[i].chain[j] \in SufAt(script[i].h)
+(* statement: same point, same previous block, same suffrage => same proposer; whichever selector   *)
+(* object is asked, whatever it was asked before, in whatever order the nodes are listed           *)
+HistoryIndependent ==
+  \A i, j \in SelIdx :
+     (script[i].h = script[j].h /\ script[i].r = script[j].r /\ script[i].hs = script[j].hs
+      /\ Range(script[i].listing) = Range(script[j].listing))
+     => script[i].chain[1] = script[j].chain[1]
+(* implementation level: the selector as an object that lives across calls. GetNodes[g] is what     *)
+(* GetNodesFunc answers for block height g in the call's order. The pinned code asks it at every    *)
+(* call for SafePrev(height) and keeps nothing between calls: its answer is a function of the       *)
+(* arguments of this call and of the chain.                                                         *)
+SafePrev(hh) == IF hh <= 0 THEN 0 ELSE hh - 1
+ImplObject(getnodes, e) == ImplChain(getnodes[SafePrev(e.h)], e.h, e.r, e.hs, e.loc, e.nfail)
+ImplObjectMatches ==
+  (script # <<>> /\ IsSel(script[Len(script)])) =>
+     LET e == script[Len(script)]
+         getnodes == [g \in 0..Top |-> Listed(sufs[g + 1], e.key)]
+     IN ImplObject(getnodes, e) = e.chain
 =============================================================================
